@@ -36,6 +36,7 @@ class _Runner(_Processor):
         self._tasks_concurrency_limit = tasks_concurrency_limit
         self._limiter = asyncio.Semaphore(tasks_concurrency_limit)
         self._tasks_processed = 0
+        self._tasks_started = 0
 
         self._health_check_server = health_check_server
 
@@ -100,9 +101,19 @@ class _Runner(_Processor):
                 await consumer.unpause()
             else:
                 await self._limiter.acquire()
+            if self._tasks_started >= self.max_tasks:
+                # the limit was reached while this message was being fetched: hand it back untouched
+                self._limiter.release()
+                await self._conn.message_broker.reject(key)
+                break
+            self._tasks_started += 1
             t = asyncio.create_task(self._process_with_event(actor, key, payload, params))
             self._tasks.add(t)
             t.add_done_callback(self._task_callback)
+            if self._tasks_started >= self.max_tasks:
+                break  # never start more than max_tasks executions
+        # keep the consumer task alive until the runner is told to stop consuming
+        await self.stop_consume_event.wait()
 
     async def run_one_queue(
         self,
